@@ -384,7 +384,116 @@ def relevant(repo: Repo, pid: str) -> Optional[Set[Tuple[str, str]]]:
     return {(m, q) for m, q in reach if m in mods}
 
 
+def identity_findings(repo: Repo):
+    """Record classes whose equality leaves out an identity field, or whose explicit hash reads a field equality ignores."""
+    import json
+    import os
+
+    cls = Classes(repo)
+    spec_path = os.path.join(os.path.dirname(os.path.dirname(os.path.abspath(__file__))), "spec", "identity.json")
+    payload = json.load(open(spec_path))["payload"]
+    out = []
+    n = 0
+    for m, mod in sorted(repo.modules.items()):
+        for name, c in sorted(mod.classes.items()):
+            if cls.dataclass_args(c) is None:
+                continue
+            n += 1
+            how, covered = cls.equality(m, c)
+            if how == "identity":
+                continue
+            fields = cls.fields(m, c)
+            derived = _derived_fields(c)
+            ident = [f for f in fields if f not in payload.get(f"{m}.{name}", []) and f not in derived]
+            missing = [f for f in ident if f not in covered]
+            site = cls.member(m, c, "__eq__") or c
+            if missing:
+                out.append((m, c, site, f"{name}.__eq__ ({how}) compares {sorted(covered)} and leaves out {missing}: two different {name} objects of one input that differ only there become equal - they merge in every set, dict key, `in` test and `==` the code uses, so one of them silently takes the place of the other", f"identity:{name}:{','.join(missing)}"))
+            h = cls.member(m, c, "__hash__")
+            if h is not None:
+                hf = {x.attr for x in ast.walk(h) if isinstance(x, ast.Attribute) and isinstance(x.value, ast.Name) and x.value.id == "self" and x.attr in fields}
+                extra = sorted(hf - covered)
+                if extra:
+                    out.append((m, c, h, f"{name}.__hash__ reads {extra}, which {name}.__eq__ does not compare: equal objects hash differently, so set and dict look-ups miss them", f"hash-eq:{name}:{','.join(extra)}"))
+    return out, n
+
+
+def _derived_fields(c: ast.ClassDef) -> Set[str]:
+    """Fields declared with init=False (filled by __post_init__ from the other fields): not part of the identity."""
+    out: Set[str] = set()
+    for b in c.body:
+        if isinstance(b, ast.AnnAssign) and isinstance(b.target, ast.Name) and isinstance(b.value, ast.Call) and astq.callee_name(b.value) == "field":
+            for k in b.value.keywords:
+                if k.arg == "init" and isinstance(k.value, ast.Constant) and k.value.value is False:
+                    out.add(b.target.id)
+    return out
+
+
+def _classes_used(repo: Repo, cls: Classes, funcs: Set[Tuple[str, str]]) -> Set[Tuple[str, str]]:
+    """Record classes a set of functions works with: named in their code (constructor, annotation, isinstance), the classes those
+    functions are methods of, and - transitively - the declared types of the fields of such classes and their base classes."""
+    seen: Set[Tuple[str, str]] = set()
+    todo: List[Tuple[str, ast.ClassDef]] = []
+    for m, q in funcs:
+        if m not in repo.modules or q not in repo.modules[m].funcs:
+            continue
+        fi = repo.modules[m].funcs[q]
+        if fi.cls is not None:
+            todo.append((m, fi.cls))
+        for n in ast.walk(fi.node):
+            nm = n.id if isinstance(n, ast.Name) else (n.value if isinstance(n, ast.Constant) and isinstance(n.value, str) and n.value.isidentifier() else None)
+            if isinstance(nm, str):
+                r = cls.find(m, nm)
+                if r is not None:
+                    todo.append(r)
+    while todo:
+        m, c = todo.pop()
+        if (m, c.name) in seen:
+            continue
+        seen.add((m, c.name))
+        for bm, bc in cls.bases(m, c):
+            todo.append((bm, bc))
+        for b in c.body:
+            if isinstance(b, ast.AnnAssign):
+                for n in ast.walk(b.annotation):
+                    nm = n.id if isinstance(n, ast.Name) else (n.value if isinstance(n, ast.Constant) and isinstance(n.value, str) and n.value.isidentifier() else None)
+                    if isinstance(nm, str):
+                        r = cls.find(m, nm)
+                        if r is not None:
+                            todo.append(r)
+    return seen
+
+
 def check(chk, pid: str) -> None:
+    """Cross-cutting rules `memo-key-state` and `identity-equality`, attributed to `pid` through reachability."""
+    _check_memo(chk, pid)
+    _check_identity(chk, pid)
+
+
+def _check_identity(chk, pid: str) -> None:
+    repo = chk.repo
+    if repo is None or pid not in ENTRIES:
+        return
+    rule = "identity-equality"
+    chk.robust.add(rule)
+    try:
+        found, n = identity_findings(repo)
+        rel = relevant(repo, pid) or set()
+        used = _classes_used(repo, Classes(repo), rel)
+    except Exception as e:  # never a verdict
+        chk.error(rule, "-", f"identity analysis failed: {type(e).__name__}: {e}")
+        return
+    k = 0
+    for m, c, site, msg, key in found:
+        if (m, c.name) in used:
+            k += 1
+            mod = repo.modules[m]
+            chk.violation(rule, f"{mod.relpath}:{getattr(site, 'lineno', c.lineno)} {c.name}", msg, f"{m}:{c.name}:{key}")
+    if k == 0:
+        chk.ok(rule, "package", f"{n} record classes; every one this property's code works with compares all of its identity fields (spec/identity.json lists the payload fields), and no explicit __hash__ reads a field __eq__ ignores")
+
+
+def _check_memo(chk, pid: str) -> None:
     """Cross-cutting rule `memo-key-state`, attributed to `pid` through reachability."""
     repo = chk.repo
     if repo is None or pid not in ENTRIES:
